@@ -284,6 +284,21 @@ def concrete(repo, seed, tier):
                 out["failure"] = dict(what="findap on %s samples differs from findap on the float64 copy of the same samples" % np.dtype(dt_).name, y=yi.tolist()[:60],
                                       selected_int=np.nonzero(pi_)[0].tolist()[:30], selected_float=np.nonzero(pf_)[0].tolist()[:30])
                 return ev, out
+    # the threshold is |tol * max|diff||: a negative tol selects what |tol| selects (findap, locate.find_unique), also on signals with exact plateaus
+    from pyyeti import locate as loc_
+    for it in range(40 if tier == "quick" else 400):
+        nlen = rng.randint(2, 40)
+        yv = rng.randint(-4, 5, size=nlen).astype(float)
+        if it % 2:
+            yv = np.repeat(yv, rng.randint(1, 4, size=nlen))[:max(2, nlen)]
+        for tl in (1e-6, 0.25, 0.5):
+            ev += 1
+            a_, b_ = cyclecount.findap(yv, tl), cyclecount.findap(yv, -tl)
+            u1, u2 = loc_.find_unique(yv, tl), loc_.find_unique(yv, -tl)
+            if not (np.array_equal(a_, b_) and np.array_equal(u1, u2)):
+                out["failure"] = dict(what="a negative tolerance (threshold |tol * max|diff||) selects differently from its absolute value: %s" % ("findap" if not np.array_equal(a_, b_) else "find_unique"),
+                                      y=yv.tolist(), tol=-tl, with_abs=np.nonzero(a_)[0].tolist(), with_negative=np.nonzero(b_)[0].tolist())
+                return ev, out
     # sigcount / binify conservation on the real pipeline
     for it in range(20 if tier == "quick" else 300):
         y = np.cumsum(rng.randn(rng.randint(5, 60))).round(1)
